@@ -137,6 +137,30 @@ func recC07(c *ctx) {
 			}
 		}
 	}
+	// one-byte neighbours of special u-coordinates (the base point 9, 0, 1): a routine that recognises a special value must
+	// look at all of it
+	nstep, specials := 1, []byte{9, 0, 1}
+	if c.tier != "thorough" {
+		nstep, specials = 3, []byte{9} // quick: a third of the neighbours of the base point
+	}
+	nk := r.Intn(nstep)
+	for _, special := range specials {
+		for i := 0; i < 32; i++ {
+			for _, mask := range []byte{0x01, 0x40, 0x80} {
+				nk++
+				if nk%nstep != 0 {
+					continue
+				}
+				u := make([]byte, 32)
+				u[0] = special
+				u[i] ^= mask
+				x(scal(), u)
+				if nk%2 == 0 {
+					sm(scal(), u)
+				}
+			}
+		}
+	}
 	// the package-level Basepoint slice itself (the fixed-base shortcut is keyed on its identity) with every kind of
 	// scalar length, and copies of it
 	for _, l := range []int{0, 1, 16, 31, 32, 33, 64} {
